@@ -11,6 +11,8 @@ sys.path.insert(0, os.path.dirname(os.path.abspath(__file__)))
 ROOT = os.path.dirname(os.path.dirname(os.path.abspath(__file__)))
 REPO = os.environ.get('VERIF_REPO', '/repo')
 TARGET = os.path.join(ROOT, 'build', 'cargo-target')
+# scratch copies of the repository live outside /repo and /verif; /var/tmp rather than /tmp (a harness may clear /tmp between commands)
+SCRATCH_BASE = os.environ.get('VERIF_SCRATCH') or ('/var/tmp' if os.access('/var/tmp', os.W_OK) else tempfile.gettempdir())
 
 APPEND = {
     'src/fixed/method.rs': 'hooks_fixed_method.rs',
@@ -28,7 +30,7 @@ class DriverCrash(Exception):
 
 
 def make_scratch():
-    d = tempfile.mkdtemp(prefix='riti-verif-')
+    d = tempfile.mkdtemp(prefix='riti-verif-', dir=SCRATCH_BASE)
     for name in ('src', 'data', 'include', 'Cargo.toml', 'Cargo.lock'):
         s = os.path.join(REPO, name)
         if os.path.isdir(s):
@@ -117,7 +119,7 @@ def _env(i=0):
     env['VERIF_DATA_DIR'] = os.path.join(REPO, 'data')
     env['VERIF_SYNTH_LAYOUT'] = os.path.join(ROOT, 'data', 'synthetic_layout.json')
     env['VERIF_GEN_DIR'] = os.path.join(ROOT, 'build', 'gen')
-    env['XDG_DATA_HOME'] = '/tmp/riti-verif-ud-%d-%d-%d' % (os.getpid(), uniq, i)
+    env['XDG_DATA_HOME'] = os.path.join(SCRATCH_BASE, 'riti-verif-ud-%d-%d-%d' % (os.getpid(), uniq, i))
     return env
 
 
